@@ -127,6 +127,16 @@ def evaluate(spec, res):
                     bad.append("%s: expected %s got %s" % (desc, exp, act))
             if bad:
                 return "broken", "cover mismatch (vacuity guard): " + "; ".join(bad), []
+            # reachability CLAIMS of the property (e.g. C19: "the constant one is reachable"): an
+            # unsatisfiable one is a universal counterexample, confirmed natively before it is reported
+            unreached = []
+            for desc, exp in spec.get("claim_covers", {}).items():
+                act = res.covers.get(desc, "MISSING")
+                if not cover_ok(exp, act):
+                    unreached.append({"name": "cover", "status": act, "description": desc, "location": "",
+                                      "class": "claim-cover"})
+            if unreached:
+                return "candidate", "reachability claim refuted by the solver", unreached
             return "discharged", "", []
         if real_fail:
             return "candidate", "%d failing checks" % len(real_fail), real_fail
@@ -379,6 +389,8 @@ def run_all(specs, crate_of, scratch, repo_src, progress):
 def confirm_candidate(prop, spec, res, cands, crate_dir, scratch, repo_src, findings):
     """Re-run with concrete playback, replay natively. Returns dict(violations, known, settled, summary)."""
     out = {"violations": [], "known": [], "settled": False, "summary": ""}
+    if cands and all(c["class"] == "claim-cover" for c in cands):
+        return confirm_claim(prop, spec, cands, scratch, findings)
     s2 = dict(spec)
     s2["timeout"] = spec.get("timeout", 900) * 2
     r2 = kani_run.run_one(crate_dir, s2, scratch, repo_src,
@@ -450,6 +462,46 @@ def confirm_candidate(prop, spec, res, cands, crate_dir, scratch, repo_src, find
     if kind == "must_panic" and all_settled and not out["violations"] and not out["known"]:
         # only overflow-class candidates, each of which panics natively in both profiles for every swept value
         out["settled"] = True
+    return out
+
+
+def confirm_claim(prop, spec, cands, scratch, findings):
+    """A reachability claim came back unsatisfiable (for ALL symbolic inputs the situation never occurs).
+    There is no single input to replay; the native confirmation is the harness's `confirm_fn`, a deterministic
+    native run of the property's own formulation.  It must panic for the violation to be reported."""
+    out = {"violations": [], "known": [], "settled": False, "summary": ""}
+    descs = ", ".join(c["description"] for c in cands)
+    if not spec.get("confirm_fn"):
+        out["summary"] = "claim covers unsatisfiable (%s) and no native confirmation available" % descs
+        return out
+    fn = spec["name"].split("::")[-1]
+    rpath = os.path.join(REPLAY_DIR, prop, "%s__%s__claim.rs" % (fn, spec.get("cfg", "dev")))
+    spec2 = dict(spec)
+    spec2["name"] = spec["module"] + "::" + spec["confirm_fn"]
+    spec2["inst"] = spec["confirm_inst"]
+    pb = {"check_kind": "claim", "check_desc": "unreachable: " + descs, "vals_text": "vec![]",
+          "body": "solver verdict: for every sequence of RNG outputs none of [%s] is reachable; native confirmation: %s" % (descs, spec["confirm_fn"])}
+    replay_mod.write_replay_file(rpath, prop, spec2, pb)
+    meta = replay_mod.read_replay_file(rpath)
+    meta["deps"] = spec.get("deps", [])
+    nat = replay_mod.native_replay(scratch, HARNESS_DIR, meta)
+    hits = replay_mod.reproduced("holds", nat)
+    desc = "; ".join("%s: %s %s" % (p, outs[0][0], outs[0][1][:160]) for p, outs in nat.items())
+    out["summary"] = desc
+    if hits:
+        kf = match_known(findings, prop, spec, descs)
+        text = "%s: the solver shows [%s] unreachable for every RNG output; native confirmation (%s) fails: %s" % (
+            spec["name"], descs, spec["confirm_fn"], desc)
+        if kf:
+            out["known"].append("%s [%s]" % (kf["text"], text))
+            os.unlink(rpath)
+        else:
+            out["violations"].append({"replay_path": rpath, "text": text, "harness": spec["name"]})
+    else:
+        try:
+            os.unlink(rpath)
+        except OSError:
+            pass
     return out
 
 
